@@ -288,6 +288,7 @@ func newEngine(prog *ssa.Program, models map[string]*ssa.Function) *Engine {
 
 func runHarness(prog *ssa.Program, models map[string]*ssa.Function, hp *ssa.Package, fn *ssa.Function, id, tier string, workers int, verbose bool) *Summary {
 	t0 := time.Now()
+	exactIntFloats.Store(false)
 	e := newEngine(prog, models)
 	budget := 10 * time.Minute
 	pathsMax := int64(200_000)
